@@ -3,7 +3,7 @@
  "name": "jw_commit_trans",
  "props": ["C14", "C03"],
  "level": "U/iter",
- "tier": "wip",
+ "tier": "quick",
  "tier_after_hooks": "quick",
  "harness": "h_commit",
  "loop_contracts": true,
@@ -15,7 +15,7 @@
  "assumes": [
    "NEEDS the hook in hooks-pending/jw.diff (named loop anchors in debugfs/do_journal.c)",
    "no contract enforced on journal_commit_trans: ghost monitors in the callee stubs (jw_stubs.h) and harness CHECKs",
-   "callees are stubs: getblk, ll_rw_block / brelse (device read / write = monitored events, may fail), mark_buffer_dirty / mark_buffer_uptodate, jbd2_journal_bmap (physical = logical + constant, may fail), ext2fs_crc32_be (returns an ARBITRARY value and checks that it is chained over whole blocks just read), jbd2_commit_block_csum_set (zeroes h_chksum_type/size and stores an ARBITRARY h_chksum[0] when v2/v3 is on, records the block at that moment; the real one: unit jw_commit_block_csum_set), gettimeofday (arbitrary time)",
+   "callees are stubs: getblk (succeeds), ll_rw_block (device read / write = monitored events, may fail), brelse (a buffer still dirty at its release is reported unless a write failed before), mark_buffer_dirty / mark_buffer_uptodate, jbd2_journal_bmap (physical = logical + constant, may fail), ext2fs_crc32_be (returns an ARBITRARY value and checks that it is chained over whole blocks just read), jbd2_commit_block_csum_set (zeroes h_chksum_type/size and stores an ARBITRARY h_chksum[0] when v2/v3 is on, records the block at that moment; the real one: unit jw_commit_block_csum_set), gettimeofday (arbitrary time)",
    "U/iter for the v1 loop only: first iteration from the real state, one iteration from an arbitrary state satisfying the invariant (running crc = the chain so far, next block to fold = start + number folded); the rest of the function is verified as it stands (U)",
    "the v1 checksum feature (compat CHECKSUM) and v2/v3 are not both set (ext2fs_journal_load / e2fsck_journal_load reject such a superblock)",
    "j_blocksize 1024; j_format_version 1 or 2; journal superblock and filesystem superblock arbitrary otherwise; getblk succeeds (the ENOMEM returns are not exercised)",
@@ -31,7 +31,7 @@
  "name": "jw_commit_time",
  "props": ["C14"],
  "level": "U/iter",
- "tier": "wip",
+ "tier": "quick",
  "harness": "h_commit",
  "loop_contracts": true,
  "includes": ["debugfs", "lib/ss", "e2fsck"],
